@@ -71,12 +71,12 @@ SPECS = {
         "incoq": {"quick": 120, "thorough": 500},
         "nontrivial_tokens": 10,
         "rule": "cases = (exhaustive) breadth-first over every distinct full state (RaftLog pub fields + MemStorage contents) reachable within depth-1 operations from 5 initial stores (empty, 2-3 entries with terms <= 3, snapshot points), log length <= 5; from every such state one case per operation of the full alphabet (append / maybe_append with agreeing and conflicting entries at every index from first-1 to last+2, i.e. every position relative to unstable.offset / persisted / committed; commit_to, maybe_commit, applied_to, stable_entries, stable_snap, restore, maybe_persist, maybe_persist_snap, storage append/apply_snapshot/compact/commit_to, restart, raw Unstable::truncate_and_append, non-contiguous and out-of-contract arguments) and a query battery (term, match_term, find_conflict, find_conflict_by_term for every index and term 0..3, is_up_to_date, slice for every lo<=hi with size limits 0 / each prefix-sum boundary -1,+0,+1 / NO_LIMIT, entries, next_entries* under limits 0,1,u64::MAX-1,u64::MAX, snapshot, commit_info, Unstable::{maybe_term,slice,must_check_outofbounds}); (random) seeded Ready-contract sequences of 150-200 operations with data lengths 0..160 (two thirds fully valid, one third with occasional invalid choices) + a malformed stream (u64::MAX / 2^63 arguments). Every case compares each operation's result (value / storage error code / panic site) and after every mutator the full state dump incl. all logical entries via slice; non-trivial = at least one operation; distinct = distinct case lines",
-        "explanation": "Theorems for all states and all operation sequences (unbounded): Props/C14.v (72 statements: abs/RepInv, every query = plain-sequence definition, every mutator = list operation preserving RepInv, slice = limit_size of the plain range with the non-empty maximal prefix property, committed_immutable with the exact fatal cases, persisted_sound, history invariants, refuted variants with witnesses). Tie: lockstep differential of M/RaftLog.v (over M/MemStorage.v) against raft::RaftLog<MemStorage> on every run + vm_compute sample; independent plain-sequence monitor (vharness raftlog --mode monitor) used for searching a failing input.",
+        "explanation": "Theorems for all states and all operation sequences (unbounded): Props/C14.v (182 statements: node-level lifting of RepInv to every Raft/RawNode function and to traces from RawNode::new; abs/RepInv, every query = plain-sequence definition, every mutator = list operation preserving RepInv, slice = limit_size of the plain range with the non-empty maximal prefix property, committed_immutable with the exact fatal cases, persisted_sound, history invariants, refuted variants with witnesses). Tie: lockstep differential of M/RaftLog.v (over M/MemStorage.v) against raft::RaftLog<MemStorage> on every run + vm_compute sample; independent plain-sequence monitor (vharness raftlog --mode monitor) used for searching a failing input.",
         "trusted_base": TB_COMMON + ["RaftLog/Unstable pub fields and MemStorage public API read directly; panic sites identified by message text and enclosing function of the panic location",
                                      "modelled not verified: src/raft_log.rs, src/log_unstable.rs (all pub methods; scan specialised), util::limit_size, entry compute_size; model assumption: indexes held in the log are < 2^64-1-length so the unchecked index+1 / offset+len additions do not wrap (caller-supplied arithmetic is modelled with overflow sites)"],
         "manifest": {
             "technique": "machine-checked proof in Coq (abstraction function to a plain sequence, representation invariant, per-operation refinement, induction over histories) + model/implementation correspondence by differential execution",
-            "text": "Props/C14.v (72 pinned theorems, all states / all operation sequences): with abs = storage entries below unstable.offset ++ unstable entries (base from the pending snapshot else the storage) and a representation invariant established by RaftLog::new, every query (term, first/last index, match_term, find_conflict, find_conflict_by_term incl. termination of its loop, is_up_to_date, slice, entries, next_entries_since, commit_info) equals its plain-sequence definition; append / maybe_append / commit_to / maybe_commit / applied_to / restore / stable_entries+storage append / stable_snap+apply_snapshot / maybe_persist(_snap) / compaction <= applied act as the obvious list operations and preserve the invariant, so along every history applied <= committed <= last, persisted <= storage last with matching terms, commit index and base are monotone and no entry at or below any earlier commit index changes; size-limited reads return a non-empty maximal prefix; the fatal cases are exactly append-below-commit and conflict-at-or-below-commit. Refuted (with witnesses): a raw truncating append at or below persisted keeps persisted; maybe_persist_snap before the snapshot reached the storage; stable_entries before the storage write; persisted+limit overflow. The model is tied to src/raft_log.rs + src/log_unstable.rs on every run by exhaustive small-scope + random differential over results, panic sites and full state.",
+            "text": "Props/C14.v (182 pinned theorems; component level, all states / all operation sequences): with abs = storage entries below unstable.offset ++ unstable entries (base from the pending snapshot else the storage) and a representation invariant established by RaftLog::new, every query (term, first/last index, match_term, find_conflict, find_conflict_by_term incl. termination of its loop, is_up_to_date, slice, entries, next_entries_since, commit_info) equals its plain-sequence definition; append / maybe_append / commit_to / maybe_commit / applied_to / restore / stable_entries+storage append / stable_snap+apply_snapshot / maybe_persist(_snap) / compaction <= applied act as the obvious list operations and preserve the invariant, so along every history applied <= committed <= last, persisted <= storage last with matching terms, commit index and base are monotone and no entry at or below any earlier commit index changes; size-limited reads return a non-empty maximal prefix; the fatal cases are exactly append-below-commit and conflict-at-or-below-commit. Refuted (with witnesses): a raw truncating append at or below persisted keeps persisted; maybe_persist_snap before the snapshot reached the storage; stable_entries before the storage write; persisted+limit overflow. NODE LEVEL (110 of the theorems): the invariant is preserved by every function of the Raft and RawNode models that touches the log (step, tick, restore, on_persist_*, commit_apply, every rn_* entry point) under explicit preconditions on messages (contiguous entries, index bounds) that are shown necessary by witnesses, and by the application's storage writes when it writes exactly what a Ready told it; hence along any non-panicking trace of RawNode calls and storage writes from RawNode::new: committed <= last_index, persisted <= storage last, and applied <= committed from the first point where it holds (the restart window only closes). The model is tied to src/raft_log.rs + src/log_unstable.rs on every run by exhaustive small-scope + random differential over results, panic sites and full state.",
             "design_ref": "DESIGN.md section 7, C14",
             "note": "Trusted: Coq kernel; hand-written model validated by differential execution; extraction + OCaml driver cross-checked by vm_compute; Rust harness; debug-build semantics; MemStorage as the conforming Storage (its model is C19's). No axioms.",
         },
@@ -223,7 +223,7 @@ SPECS["C06"] = node_spec(
 SPECS["C15"] = node_spec(
     "C15", ["log", "conf", "progress", "msgs.repl", "msgs.resp"], "snapshot",
     "Props/C15.v (21 pinned theorems, every node state and message): a snapshot is installed only if it is not behind the commit index, the node is a follower and a member of the snapshot's configuration, and it is not a matching unrequested one; the exact effect of an install (commit = snapshot index, boundary term, unstable snapshot, next index, persisted rule, configuration = restore of the snapshot's ConfState with exactly its members tracked, promotable flag, request cleared; term/vote/role untouched); a matching snapshot that the node did not request (none pending, or below the requested index) only advances the commit index and discards nothing; the three rejection cases; the reply; the leader emits a snapshot only if the peer is recently active and either asked for one or the term/entries lookup failed (compacted), entering Snapshot state at the sent index; resumption after a status report or a caught-up acknowledgement; compaction of applied entries leaves every RaftLog query at or above the compaction point unchanged. The defect F2 found here (a delayed older snapshot truncating acknowledged entries while a request was pending) was fixed in /repo; a regression guard is pinned.",
-    "the cross-node clause (installed state equals that of a node that applied the log to the snapshot index), the application state, and the step-level frame of compaction are not proved.",
+    "the configuration part of the cross-node clause is proved (after an install the configuration and tracked ids equal those of the sender that applied the same changes: C15_install_same_conf); the application state is outside the library; the step-level frame of compaction is not proved.",
     "DESIGN.md section 7, C15",
     "Theorems: Props/C15.v over M/Raft.v, M/RaftLog.v, M/MemStorage.v. Tie: pointwise differential, projection log+conf+progress+replication/response traffic.")
 
@@ -236,24 +236,25 @@ SPECS["C17"] = node_spec(
 
 SPECS["C13"] = node_spec(
     "C13", ["progress", "msgs.repl", "uncommitted", "result", "log"], "flow_control",
-    "Props/C13.v (35 pinned theorems, every node state and input): nothing is sent to a paused peer (snapshot outstanding, probe paused, window full), with the state unchanged; the exact shape of what maybe_send_append queues (one message; snapshot or append anchored at (next_idx-1, its term), entries as read from the log, commit = committed) and its effect on the progress (probe pauses after an entry-carrying append and stays paused on every later call; replicate consumes exactly one window slot, requires the window not full); entries of an emitted append are contiguous from the anchor, are the log's own entries, and respect max_size_per_msg unless a single entry (batching off); batching rewrites only the first queued append for the peer, keeps its anchor and contiguity (the defect found here, merging into an empty append anchored elsewhere, was fixed in /repo); the in-flight window invariant count <= cap is preserved by every Progress operation, by the whole Raft API and by every RawNode entry point, and no panic comes from the window; heartbeats carry commit = min(matched, committed); the uncommitted-size rule is characterised exactly (refused iff limited, non-empty payload, something outstanding and the sum exceeds the maximum); a proposal is dropped on a leader exactly for the four listed reasons; every queued append/heartbeat carries m_commit <= committed (invariant of the whole API).",
-    "that every queued MsgAppend stays a slice of the leader's current log across later steps needs leader-append-only (proved at P level, C05) and is a hypothesis here; cap = max_inflight_msgs at all times and the identification of window elements with unacknowledged messages are not proved; the size clause is stated with batching off, as in the property.",
+    "Props/C13.v (59 pinned theorems, every node state and input): nothing is sent to a paused peer (snapshot outstanding, probe paused, window full), with the state unchanged; the exact shape of what maybe_send_append queues (one message; snapshot or append anchored at (next_idx-1, its term), entries as read from the log, commit = committed) and its effect on the progress (probe pauses after an entry-carrying append and stays paused on every later call; replicate consumes exactly one window slot, requires the window not full); entries of an emitted append are contiguous from the anchor, are the log's own entries, and respect max_size_per_msg unless a single entry (batching off); batching rewrites only the first queued append for the peer, keeps its anchor and contiguity (the defect found here, merging into an empty append anchored elsewhere, was fixed in /repo); the in-flight window invariant count <= cap is preserved by every Progress operation, by the whole Raft API and by every RawNode entry point, and no panic comes from the window; heartbeats carry commit = min(matched, committed); the uncommitted-size rule is characterised exactly (refused iff limited, non-empty payload, something outstanding and the sum exceeds the maximum); a proposal is dropped on a leader exactly for the four listed reasons; every queued append/heartbeat carries m_commit <= committed (invariant of the whole API).",
+    "every MsgAppend in the queue, in a Ready or in a LightReady of any state reached from RawNode::new carries contiguous entries (queue invariant AppOK, batching on or off); that a queued MsgAppend stays a slice of the leader's CURRENT log across later steps needs leader-append-only (proved at P level, C05) and is not an invariant here (the log may be truncated while a message waits); cap = max_inflight_msgs at all times and the identification of window elements with unacknowledged messages are not proved; the size clause is stated with batching off, as in the property.",
     "DESIGN.md section 7, C13",
     "Theorems: Props/C13.v over M/Raft.v, M/Progress.v, M/Inflights.v, M/RaftLog.v. Tie: pointwise differential, projection progress+replication traffic+uncommitted+results+log.")
 
 SPECS["C07"] = node_spec(
     "C07", ["result", "rawnode", "log"], "ready_contract",
-    "Props/C07.v (38 pinned theorems over every RawNode state unless an invariant is named): has_ready is true exactly when ready() would be non-empty; must_sync iff entries, a snapshot or a term/vote change are included; a Ready carries exactly the unstable suffix, the hard/soft state iff changed (then current), number = max_number+1 and pushes exactly one record; committed entries handed out are, under the RaftLog representation invariant of C14, limit_size of the logical log between max(commit_since_index+1, first) and min(committed, persisted+limit): contiguous, equal to the log's entries, above commit_since_index, at most committed, and with limit 0 only persisted entries (the former overflow defect for limit u64::MAX, fixed in /repo, is pinned as now total); commit_since_index never decreases and moves to the last handed-out entry or the snapshot index (then no committed entries in that Ready); on_persist_ready removes exactly the records up to the number and reports the last snapshot / (index, term); commit_ready panics exactly on the three contract breaches; a Ready that changes term or vote carries no immediate message and immediate messages occur only for a leader with no such change outstanding (fix 4e5e493); advancing the Ready just produced cannot panic and the next Ready carries nothing twice; lifetime level: over any non-panicking sequence of RawNode calls and storage writes from RawNode::new, the committed entries handed out have exactly the indexes start+1 .. commit_since_index in order, restarting at the snapshot index after a snapshot Ready.",
-    "preservation of the RaftLog representation invariant by node-level step/tick is a hypothesis at hand-out points (it is C14's invariant, proved there for the RaftLog operations); 'no altered entry over time' relies on committed-prefix immutability (C05/C01 at P level); the storage contents after each persisted Ready belong to the application.",
+    "Props/C07.v (54 pinned theorems over every RawNode state unless an invariant is named): has_ready is true exactly when ready() would be non-empty; must_sync iff entries, a snapshot or a term/vote change are included; a Ready carries exactly the unstable suffix, the hard/soft state iff changed (then current), number = max_number+1 and pushes exactly one record; committed entries handed out are, under the RaftLog representation invariant of C14, limit_size of the logical log between max(commit_since_index+1, first) and min(committed, persisted+limit): contiguous, equal to the log's entries, above commit_since_index, at most committed, and with limit 0 only persisted entries (the former overflow defect for limit u64::MAX, fixed in /repo, is pinned as now total); commit_since_index never decreases and moves to the last handed-out entry or the snapshot index (then no committed entries in that Ready); on_persist_ready removes exactly the records up to the number and reports the last snapshot / (index, term); commit_ready panics exactly on the three contract breaches; a Ready that changes term or vote carries no immediate message and immediate messages occur only for a leader with no such change outstanding (fix 4e5e493); advancing the Ready just produced cannot panic and the next Ready carries nothing twice; lifetime level: over any non-panicking sequence of RawNode calls and storage writes from RawNode::new, the committed entries handed out have exactly the indexes start+1 .. commit_since_index in order, restarting at the snapshot index after a snapshot Ready.",
+    "the RaftLog representation invariant at hand-out points is now DERIVED along any trace from RawNode::new (C14 node level; handout_contiguous_from_new2), leaving one caller-side condition: the application does not compact beyond commit_since_index+1 between a ready and its advance; 'no altered entry over time' relies on committed-prefix immutability (C05/C01 at P level); the storage contents after each persisted Ready belong to the application.",
     "DESIGN.md section 7, C07",
     "Theorems: Props/C07.v over M/RawNode.v, M/Raft.v, M/RaftLog.v. Tie: pointwise differential, projection results (Ready/LightReady contents) + RawNode bookkeeping + log.")
 
 SPECS["C08"] = node_spec(
     "C08", ["read", "result", "msgs.other", "msgs.resp"], "read_index",
-    "Props/C08.v (61 pinned theorems, every node state and message): the ReadOnly queue behaves as a duplicate-free FIFO with one pending entry per context (add, ack, advance; advance pops exactly the prefix through the acknowledged context, never panics under the invariant); a leader without a commit in its own term drops read requests; in Safe mode a request is recorded with the leader's commit index and one ctx-tagged heartbeat goes to every peer; read states and MsgReadIndexResp are released in handle_heartbeat_response only for a pending context whose acknowledgements plus the sender form a quorum, and exactly the queue prefix is served with the recorded indexes; the complete account of where read states come from in step (three origins) and that every other message type leaves them alone; responses are routed to the originating node only; every reset (follower/candidate/leader transition, higher term) drops all pending reads; heartbeat responses echo the context at the follower's term, lower-term heartbeats get no ack; step never lowers the commit index; RawNode::new starts with no pending read. Defect found by the monitor and fixed in /repo (6a9ae91): a removed/demoted leader with one remaining voter answered locally through the single-voter shortcut - regression guard pinned (a Safe leader that is not a voter never answers at once).",
-    "the cluster-level linearizability clause itself (index >= every commit index reached when the read was issued; a superseded leader stays silent) needs leader completeness and quorum intersection across nodes and is not proved as a theorem; it is exercised by the read_index monitor in the search only. The role of unique contexts is not proved.",
+    "Props/C08.v (61 pinned theorems, every node state and message): the ReadOnly queue behaves as a duplicate-free FIFO with one pending entry per context (add, ack, advance; advance pops exactly the prefix through the acknowledged context, never panics under the invariant); a leader without a commit in its own term drops read requests; in Safe mode a request is recorded with the leader's commit index and one ctx-tagged heartbeat goes to every peer; read states and MsgReadIndexResp are released in handle_heartbeat_response only for a pending context whose acknowledgements plus the sender form a quorum, and exactly the queue prefix is served with the recorded indexes; the complete account of where read states come from in step (three origins) and that every other message type leaves them alone; responses are routed to the originating node only; every reset (follower/candidate/leader transition, higher term) drops all pending reads; heartbeat responses echo the context at the follower's term, lower-term heartbeats get no ack; step never lowers the commit index; RawNode::new starts with no pending read. Defect found by the monitor and fixed in /repo (6a9ae91): a removed/demoted leader with one remaining voter answered locally through the single-voter shortcut - regression guard pinned (a Safe leader that is not a voter never answers at once). CLUSTER LEVEL (abstract protocol P/Read.v on top of P/Log.v; every execution with crashes, restarts, message loss/duplication/reordering): every served read carries an index at least as large as every commit point - hence every node's commit index - that existed when the request was recorded (C08_read_linearizable, C08_read_index_ge_commit); a leader whose request-time snapshot already contains a commit point of a later term never answers (C08_stale_leader_silent); reads are served only on the requesting leader while it still leads the same term; the guard that heartbeat acknowledgements count only if created after the request is shown NECESSARY by a refutation witness. Tied to the code by the acceptor P/ReadAccept.v (proved sound) run on the read-layer event trace of every simulated execution (requests recorded, heartbeat acknowledgements created, reads served; Safe mode runs).",
+    "fixed voter configuration within an execution and no single-node quorum for the cluster-level theorems (a read racing a membership change is covered only by the node-level theorems, the pointwise differential and the monitor); request contexts are assumed unique per leader and term (a reused context is refused by the abstract rule).",
     "DESIGN.md section 7, C08",
-    "Theorems: Props/C08.v over M/Raft.v (ReadOnly, step), M/RawNode.v. Tie: pointwise differential, projection read-only state + read states + results + heartbeat/read traffic.")
+    "Theorems: Props/C08.v over M/Raft.v (ReadOnly, step), M/RawNode.v. Ties: (A) pointwise differential, projection read-only state + read states + results + heartbeat/read traffic; (B) read-layer acceptor on P-level traces.",
+    acceptor="pread")
 
 SPECS["C10"] = node_spec(
     "C10", ["progress", "msgs.repl", "msgs.resp", "timers", "hard", "result"], "progress",
@@ -275,7 +276,7 @@ SPECS["C20"]["site_inventory"] = True
 SPECS["C09"] = node_spec(
     "C09", ["conf", "hard", "log", "result"], "conf_change",
     "Props/C09.v (46 pinned theorems, every node state and input): the proposal filter is characterised completely (a conf-change entry is kept iff nothing is pending and it fits the joint state, otherwise replaced by an empty normal entry; a decode error drops the proposal; at most one survives a proposal); the leader invariant 'every conf-change entry above applied is at or below pending_conf_index' is established by become_leader and preserved by every function of the Raft and RawNode models; no node campaigns (timeout, MsgHup, MsgTimeoutNow) while has_unapplied_conf_changes answers true, and a (pre-)candidate that learns a committed conf change through vote traffic steps down; a non-promotable node never campaigns by tick or MsgTimeoutNow and promotable = voter after every configuration switch; a rejected apply_conf_change leaves the node untouched and a successful one yields exactly the ConfChange model's configuration (C12); auto-leave is proposed once.",
-    "the cross-node clause (nodes at the same applied index have identical configurations, also after restart) and the literal whole-log 'at most one conf entry beyond applied' are protocol-level and not proved (the latter is refuted for a restarted node whose applied index lags, with a witness); Raft::new is not in the model.",
+    "the cross-node clause is proved as: the configuration and tracked ids of a node are conf_after(initial ConfState, applied membership changes in order) - established by RawNode::new, extended by every successful apply, kept by every other entry point except snapshot install, reproduced by a restart from the stored ConfState and by a snapshot install - so two nodes with the same (initial ConfState, applied changes) have equal configurations; assumed of the application: it applies exactly the committed membership entries in log order and stores the returned ConfState; that equal applied indexes mean equal change lists is log matching (C05/C01). The literal whole-log 'at most one conf entry beyond applied' are protocol-level and not proved (the latter is refuted for a restarted node whose applied index lags, with a witness)",
     "DESIGN.md section 7, C09",
     "Theorems: Props/C09.v over M/Raft.v, M/RawNode.v. Tie: pointwise differential, projection conf+hard+log+results.")
 
